@@ -87,6 +87,10 @@ ViolL(e) ==
     \cup Bad("poly-clamp", /\ (e.fle0 => (PEq(e.p, e.v0) /\ e.next = 1))
                            /\ (e.fge1 => (FLeq(e.plast, e.angtol) /\ e.next >= e.n - 1)))
     \cup Bad("poly-distinct-next", ~e.isnext)
+    \* Length() = sum of Point.Distance over the edges (4 ulps per edge)
+    \cup Bad("poly-length", FBetween(e.lenlo, e.len, e.lenhi))
+    \* the interpolated point lies at arc length fraction * (sum of edge lengths) from vertex 0
+    \cup Bad("poly-interp-arclength", FBetween(e.alonglo, e.along, e.alonghi))
     \cup Bad("poly-on-segment", FLeq(e.ps, e.pstol))
     \cup Bad("poly-uninterpolate", FBetween(e.flo, e.f2, e.fhi) /\ FBetween(e.zero, e.f2, e.one))
     \cup Bad("poly-project-min", FBetween(e.dqlo, e.dq, e.dqhi))
